@@ -74,10 +74,18 @@ pub fn machinery_failure(msg: &str) -> ! {
 /// Enumerates all tapes with at most `bound` non-default answers (depth-first, defaults first).
 /// `body` gets a fresh tape for each execution.  Returns number of executions.
 /// `limit` caps the number of executions (0 = no cap); returns (executions, capped).
-pub fn explore<F: FnMut(&mut Tape)>(bound: usize, limit: usize, mut body: F) -> (usize, bool) {
+pub fn explore<F: FnMut(&mut Tape)>(bound: usize, limit: usize, body: F) -> (usize, bool) {
+    explore_part(bound, limit, 0, 1, body)
+}
+
+/// Like `explore`, but only descends into the first-level alternatives whose ordinal is congruent to
+/// `part` modulo `nparts` (the all-default execution is run by part 0 only).  The union over all
+/// parts is exactly `explore`'s set of executions.
+pub fn explore_part<F: FnMut(&mut Tape)>(bound: usize, limit: usize, part: usize, nparts: usize, mut body: F) -> (usize, bool) {
     // stack of (prefix answers, prefix arities)
     let mut stack: Vec<(Vec<u32>, Vec<u32>)> = vec![(vec![], vec![])];
     let mut runs = 0usize;
+    let mut root = true;
     while let Some((prefix, prefix_arity)) = stack.pop() {
         if limit != 0 && runs >= limit {
             return (runs, true);
@@ -90,7 +98,11 @@ pub fn explore<F: FnMut(&mut Tape)>(bound: usize, limit: usize, mut body: F) -> 
             arities: Vec::new(),
         };
         body(&mut tape);
-        runs += 1;
+        let is_root = root;
+        root = false;
+        if !(is_root && part != 0) {
+            runs += 1;
+        }
         if tape.answers.len() < plen {
             machinery_failure("tape divergence: execution shorter than its prefix");
         }
@@ -100,9 +112,14 @@ pub fn explore<F: FnMut(&mut Tape)>(bound: usize, limit: usize, mut body: F) -> 
             continue;
         }
         // push in reverse so that earliest position / smallest alternative is explored first
+        let mut ordinal = 0usize;
         for i in (plen..tape.answers.len()).rev() {
             let n = tape.arities[i];
             for alt in (1..n).rev() {
+                ordinal += 1;
+                if is_root && ordinal % nparts != part {
+                    continue;
+                }
                 let mut p = tape.answers[..i].to_vec();
                 p.push(alt);
                 let ar = tape.arities[..=i].to_vec();
